@@ -600,3 +600,28 @@ def rule_c17_writers(prog: Program, col: Collector) -> None:
                               "of the game (known rows included), bypassing every setter", rule="G6")
     if found == 0:
         col.ok("-", "package", "no in-place mutation of a getter view anywhere (positive control matched)", rule="G6")
+
+
+def rule_c17_compute_and_state(prog: Program, col: Collector) -> None:
+    """G9: compute_bounds always runs the computer; the game object holds no state besides the table."""
+    gm = GameModel(prog)
+    col.rule("G9", "compute_bounds() unconditionally calls the bound computer on self; the object keeps no state besides number_of_players, _bounds_computer and the table", 2)
+    ref = gm.method("compute_bounds")
+    ft = fterms(prog, ref)
+    calls = [e for e in ft.calls() if e.func == ("attr", SELF, "_bounds_computer") and e.args == (SELF,)]
+    guards = [f for e in calls for f in e.ctx if f[0] in ("if", "for", "while", "try")]
+    early = [e for e in ft.of_kind("return") if calls and e.seq < calls[0].seq]
+    col.check(len(calls) == 1 and not guards and not early, ref.where((early or calls or [None])[0].node if (early or calls) else None), ref.short,
+              "compute_bounds() = self._bounds_computer(self), on every call", construct="compute-bounds-conditional",
+              necessity="a compute that is skipped when 'nothing changed' (same known set, dirty flag, ...) leaves the bounds of an earlier knowledge state in place: "
+                        "the same coalitions can be known with other values after a bulk reset, and un-reveal + reveal restores the flag pattern but not the bounds")
+    allowed = {"number_of_players", "_bounds_computer", "_values"}
+    extra = []
+    for name, m in gm.methods.items():
+        for e in list(fterms(prog, m).of_kind("store")) + list(fterms(prog, m).of_kind("aug")):
+            if e.obj == SELF and e.attr is not None and e.attr not in allowed:
+                extra.append((m, e))
+    col.check(not extra, (extra[0][0].where(extra[0][1].node) if extra else gm.mod.rel()), "game.IncompleteCooperativeGame",
+              "no per-object state besides the table (found: " + ", ".join(sorted({e.attr for _, e in extra})) + ")" if extra else "no per-object state besides the table",
+              construct="extra-object-state",
+              necessity="caches, dirty flags and memoised bounds on the game object let the operation history leak into what the getters return")
